@@ -135,6 +135,10 @@ def seed_names(kind):
             w.add(ident(s.Definition(name="b"), "b"))
             return
         d = lib.create_definition(name="d")
+        # a second definition whose children reuse the names: exact lookups from the library or the
+        # netlist must find the children of both
+        d2 = lib.create_definition(name="d2")
+        {"P": d2.create_port, "C": d2.create_cable, "X": d2.create_child}[kind](name="a")
         if kind == "P":
             ident(d.create_port(name="a"), "a")
             d.create_port()
